@@ -16,6 +16,7 @@ import AsmjitVerif.Lemmas.C06ShuffleTop
 import AsmjitVerif.Lemmas.C06ShufflePhase3
 import AsmjitVerif.Lemmas.C06ShuffleSel
 import AsmjitVerif.Lemmas.C06ShuffleInt
+import AsmjitVerif.Lemmas.C06ShuffleAll
 namespace AsmjitVerif.C06
 open AsmjitVerif.CallConv AsmjitVerif.ABI
 
@@ -271,7 +272,8 @@ example : ∃ cc d, initFuncDetail ⟨.x64, false, false⟩ { ccid := 0, args :=
 
 /-! ## Part 2 – the argument shuffle (`Model/ArgShuffle.lean` on `Spec/Machine.lean`)
 
-  Full-strength statement (NOT proved in this generality):
+  Full-strength statement (NOT proved in this generality; proved for register and stack arguments into registers, every covered kind:
+  `shuffle_correct_typed`, end of this section):
 
     theorem shuffle_correct (cfg f argsSa vals) :
       (emitArgsAssignment cfg f argsSa vals).1 = none →
@@ -560,6 +562,91 @@ theorem valsK3_intRegs : C06S.IntRegs valsK3 := by
 
 example : judge .x64 frX64 valsK3 (emitArgsAssignment { arch := .x64 } frX64 255 valsK3).2 = some true :=
   shuffle_correct_int_regs { arch := .x64 } (Or.inl (by simp [C06S.x86Cfgs])) frX64 valsK3 valsK3_regOnly valsK3_intRegs (by decide +kernel)
+
+/-- **every register group** (round 10): like `shuffle_correct_int_regs`, for register-only assignments whose variables are of any
+    covered kind (`C06S.KindOk`): integers in GP registers; float / double / any vector type in vector registers (x86 xmm/ymm/zmm
+    under SSE, AVX and AVX-512 emitters; AArch64 b/h/s/d/q views), including float <-> double conversions; on x86 opmask types in k
+    registers and `__m64` in mm registers.  No hypothesis about the code's choices; any frame. -/
+theorem shuffle_correct_typed_regs (cfg : Cfg) (hcfg : cfg ∈ C06S.x86Cfgs ∨ cfg.arch = .a64) (f : FrameIn)
+    (vals : List (FuncValue × Option FuncValue)) (hr : C06S.RegOnly vals) (ht : C06S.TypedRegs cfg.arch vals)
+    (hok : (emitArgsAssignment cfg f 255 vals).1 = none) :
+    judge cfg.arch f vals (emitArgsAssignment cfg f 255 vals).2 = some true :=
+  C06S.shuffle_correct_typed_regs cfg hcfg f vals hr ht hok
+
+/-- **headline (round 10): register AND stack arguments into registers, from the real entry point, no hypothesis about the code's
+    choices.**  Inputs (`C06S.SrcDst`, `C06S.TypedSrcs`): every argument has a register destination; register arguments sit in pairwise
+    distinct registers and stay in their group, stack arguments in pairwise distinct slots, destinations pairwise distinct (the API
+    answers kOverlappedRegs otherwise); every variable is of a covered kind (as above; for stack arguments the slot's type and the
+    destination's type/register).  Frame: the incoming stack arguments are addressed through sp or the frame pointer
+    (`hsa`: not "dynamic alignment without frame pointer"), and that register is no destination (`hnsa`; the API refuses it).
+    Then: `init_work_data` establishes the invariant (`C06S.initWorkData_wf2`), the pass loop leaves every register argument done
+    (`C06S.loop_ok`), the load loop needs one iteration and loads every stack argument from the slot it arrived in into a register
+    that holds no variable (`C06S.phase3_ok`), and `judge` = true: every destination holds its argument extended / converted as its
+    type requires.
+    NOT covered (`_partial` in this sense; full statement at the top of this section): stack destinations (phase 1), the moving
+    stack-arguments base pointer (dynamic alignment without frame pointer, or `set_sa_reg_id`), `long double`; and the clause
+    "nothing else the convention preserves is clobbered" is only implied for the variables' own registers (a write hits an
+    unassigned register of `work_regs` or exchanges two variables) – preserved-register bookkeeping is C07's frame. -/
+theorem shuffle_correct_typed (cfg : Cfg) (hcfg : cfg ∈ C06S.x86Cfgs ∨ cfg.arch = .a64) (f : FrameIn)
+    (vals : List (FuncValue × Option FuncValue)) (hr : C06S.SrcDst vals) (ht : C06S.TypedSrcs cfg.arch vals)
+    (hsa : (f.da && !f.fp) = false)
+    (hnsa : ∀ i, i < vals.length →
+      ¬ ((C06S.dstAt vals i).regId = C06S.saFixed cfg.arch f ∧ groupOf (C06S.dstAt vals i).regType = 0))
+    (hok : (emitArgsAssignment cfg f 255 vals).1 = none) :
+    judge cfg.arch f vals (emitArgsAssignment cfg f 255 vals).2 = some true :=
+  C06S.shuffle_correct_typed cfg hcfg f vals hr ht hsa hnsa hok
+
+/-- the same with the selection facts as hypotheses (any types): what remains to be assumed outside the covered kinds -/
+theorem shuffle_correct_srcs_partial (cfg : Cfg) (f : FrameIn) (vals : List (FuncValue × Option FuncValue))
+    (hr : C06S.SrcDst vals) (hd0 : C06S.DoneInitOk2 vals) (hsa : (f.da && !f.fp) = false)
+    (hy : C06S.Hyp (C06S.paramsOf cfg f vals))
+    (hload : ∀ i d off, i < vals.length → d < 32 →
+      C06S.loadOkAt cfg (C06S.paramsOf cfg f vals).vis ((C06S.paramsOf cfg f vals).out i).regType
+        ((C06S.paramsOf cfg f vals).out i).typeId ((C06S.paramsOf cfg f vals).src i).typeId
+        (initTok (C06S.paramsOf cfg f vals).vis i) d (C06S.saFixed cfg.arch f) off = true)
+    (hnsa : ∀ i, i < vals.length →
+      ¬ ((C06S.dstAt vals i).regId = C06S.saFixed cfg.arch f ∧ groupOf (C06S.dstAt vals i).regType = 0))
+    (hok : (emitArgsAssignment cfg f 255 vals).1 = none) :
+    judge cfg.arch f vals (emitArgsAssignment cfg f 255 vals).2 = some true :=
+  C06S.shuffle_correct_srcs cfg f vals hr hd0 hsa hy hload hnsa hok
+
+/-- non-vacuity of `shuffle_correct_typed`: a widening register argument, a stack argument and a float -> double conversion -/
+def valsMix : List (FuncValue × Option FuncValue) :=
+  [(FuncValue.reg 34 5 7, some (FuncValue.reg 40 6 6)), (FuncValue.stack 36 0, some (FuncValue.reg 38 5 3)),
+   (FuncValue.reg 42 11 0, some (FuncValue.reg 80 11 1))]
+
+theorem valsMix_srcDst : C06S.SrcDst valsMix := by
+  refine ⟨?_, ?_, ?_⟩
+  · intro i hi
+    have : i = 0 ∨ i = 1 ∨ i = 2 := by simp [valsMix] at hi; omega
+    rcases this with rfl | rfl | rfl
+    · exact ⟨rfl, Or.inl ⟨rfl, rfl, rfl, by decide, rfl, rfl⟩⟩
+    · exact ⟨rfl, Or.inr ⟨rfl, rfl, rfl, rfl⟩⟩
+    · exact ⟨rfl, Or.inl ⟨rfl, rfl, rfl, by decide, rfl, rfl⟩⟩
+  · intro i j hi hj hij
+    have h1 : i = 0 ∨ i = 1 ∨ i = 2 := by simp [valsMix] at hi; omega
+    have h2 : j = 0 ∨ j = 1 ∨ j = 2 := by simp [valsMix] at hj; omega
+    rcases h1 with rfl | rfl | rfl <;> rcases h2 with rfl | rfl | rfl <;> first | exact absurd rfl hij | decide
+  · intro i j hi hj hij
+    have h1 : i = 0 ∨ i = 1 ∨ i = 2 := by simp [valsMix] at hi; omega
+    have h2 : j = 0 ∨ j = 1 ∨ j = 2 := by simp [valsMix] at hj; omega
+    rcases h1 with rfl | rfl | rfl <;> rcases h2 with rfl | rfl | rfl <;> first | exact absurd rfl hij | decide
+
+theorem valsMix_typed : C06S.TypedSrcs .x64 valsMix := by
+  intro i hi
+  have : i = 0 ∨ i = 1 ∨ i = 2 := by simp [valsMix] at hi; omega
+  rcases this with rfl | rfl | rfl
+  · exact ⟨fun _ => Or.inl (by decide), fun h => absurd h (by decide)⟩
+  · exact ⟨fun h => absurd h (by decide), fun _ => Or.inl (by decide)⟩
+  · exact ⟨fun _ => Or.inr (Or.inl (by decide)), fun h => absurd h (by decide)⟩
+
+example : judge .x64 frX64 valsMix (emitArgsAssignment { arch := .x64 } frX64 255 valsMix).2 = some true :=
+  shuffle_correct_typed { arch := .x64 } (Or.inl (by simp [C06S.x86Cfgs])) frX64 valsMix valsMix_srcDst valsMix_typed (by decide)
+    (by
+      intro i hi
+      have : i = 0 ∨ i = 1 ∨ i = 2 := by simp [valsMix] at hi; omega
+      rcases this with rfl | rfl | rfl <;> decide)
+    (by decide +kernel)
 
 -- non-vacuity of the selection hypotheses: an x86-64 int64 -> int64 variable satisfies `first` and `again` for every register pair
 example : ∀ d ∈ List.range 32, ∀ s ∈ List.range 32,
